@@ -111,7 +111,7 @@ func TestVerifC10Inline(t *testing.T) {
 	partial := true
 	rootOf := func(path string) int {
 		for i, r := range roots {
-			if strings.HasPrefix(path, r+string(os.PathSeparator)) {
+			if strings.HasPrefix(filepath.Clean(path), filepath.Clean(r)+string(os.PathSeparator)) {
 				return i
 			}
 		}
@@ -137,7 +137,7 @@ func TestVerifC10Inline(t *testing.T) {
 	})
 	verifhook.SetDiskFree(func(root string, real uint64) uint64 {
 		for i, r := range roots {
-			if r == root && i < len(cfg) {
+			if filepath.Clean(r) == filepath.Clean(root) && i < len(cfg) {
 				return cfg[i].free
 			}
 		}
